@@ -17,10 +17,13 @@ pre_c = r"""
 unsigned long g_ff_calls; int g_ff_ans[4]; int g_all_ok; unsigned long g_ff_proc[4]; long g_now;
 static void xc_havoc_ghosts(void) { int a, b, c, d; g_ff_calls = 0; g_ff_ans[0] = a; g_ff_ans[1] = b; g_ff_ans[2] = c; g_ff_ans[3] = d; g_all_ok = 1; }
 static long xc_now(void) { return g_now; }
+unsigned long g_sd_calls; unsigned long g_sd_proc[4]; int g_sd_ans[4];
 """
 post_struct_c = r"""
 static bool xc_proc_ForceFlush(const xc_opaque *p, long timeout)
 { unsigned long i = g_ff_calls < 3 ? g_ff_calls : 3; bool r = g_ff_ans[i] != 0; g_ff_proc[i] = (unsigned long)p; g_ff_calls++; if (!r) g_all_ok = 0; return r; }
+static bool xc_proc_Shutdown(const xc_opaque *p, long timeout)
+{ unsigned long i = g_sd_calls < 3 ? g_sd_calls : 3; g_sd_proc[i] = (unsigned long)p; g_sd_calls++; return g_sd_ans[i] != 0; }
 """
 
 
@@ -40,6 +43,7 @@ def configure(cfg):
     cfg.ext_methods["std::unique_ptr::operator->"] = lambda em, recv, args, n: recv
     cfg.ext_q["SpanProcessor::ForceFlush"] = lambda em, node, recv, args: "xc_proc_ForceFlush(%s, %s)" % (em.expr(unp(recv)), em.expr(args[0]))
     cfg.ext_q["LogRecordProcessor::ForceFlush"] = lambda em, node, recv, args: "xc_proc_ForceFlush(%s, %s)" % (em.expr(unp(recv)), em.expr(args[0]))
+    cfg.ext_q["SpanProcessor::Shutdown"] = lambda em, node, recv, args: "xc_proc_Shutdown(%s, %s)" % (em.expr(unp(recv)), em.expr(args[0]))
     cfg.ext["now"] = lambda em, node, recv, args: "xc_now()"
     cfg.opaque_records["sdk::trace::SpanProcessor"] = "xc_opaque"
     cfg.opaque_records["sdk::logs::LogRecordProcessor"] = "xc_opaque"
@@ -61,7 +65,25 @@ void h_MultiSpanProcessor_ForceFlush_bounded(void)
   __CPROVER_assert(0, "XC_CANARY end of harness reachable");
 }
 """
+H_MSP_SD = r"""
+void h_MultiSpanProcessor_Shutdown_bounded(void)
+{
+  xc_havoc_ghosts();
+  unsigned long n; __CPROVER_assume(n <= 3);
+  ProcessorNode nodes[3]; MultiSpanProcessor msp; long timeout;
+  for (unsigned long i = 0; i < 3; i++) { nodes[i].value_ = (xc_opaque *)(100 + i); nodes[i].next_ = (i + 1 < n) ? &nodes[i + 1] : NULL; nodes[i].prev_ = i ? &nodes[i - 1] : NULL; }
+  msp.head_ = n ? &nodes[0] : NULL; msp.tail_ = n ? &nodes[n - 1] : NULL; msp.count_ = n;
+  g_sd_calls = 0;
+  MultiSpanProcessor_Shutdown(&msp, timeout);
+  __CPROVER_assert(g_sd_calls == n, "Shutdown of the provider's processor reaches every registered processor exactly once");
+  for (unsigned long i = 0; i < 3; i++) if (i < n) __CPROVER_assert(g_sd_proc[i] == 100 + i, "... each of them, in registration order");
+  __CPROVER_assert(g_ff_calls == 0, "Shutdown does not flush by itself");
+  __CPROVER_assert(0, "XC_CANARY end of harness reachable");
+}
+"""
 proofs = [
+    Proof("MultiSpanProcessor_Shutdown_bounded", [("MultiSpanProcessor::Shutdown", 1)], harness=H_MSP_SD, loop_contracts=False, unwind=5, level="bounded", timeout=300,
+          bound_note="0..3 processors in the list, arbitrary results of their Shutdown; everything inlined", desc="fan-out of Shutdown: every registered processor exactly once (one call, sequential)"),
     Proof("MultiSpanProcessor_ForceFlush_bounded", [("MultiSpanProcessor::ForceFlush", 1)], harness=H_MSP, loop_contracts=False, unwind=5, level="bounded", timeout=300,
           bound_note="0..3 processors in the list, arbitrary results of their ForceFlush; everything inlined", desc="fan-out of ForceFlush: every processor once, success only if all succeed"),
 ]
